@@ -131,7 +131,7 @@ PROPS = {
         'props': ['theories/Props/C11.v'],
         'deps': ['theories/Theory/ValidatorsFacts.v', 'theories/Theory/BytesFacts.v', 'theories/Model/Validators.v',
                  'gen/Classes.v', 'gen/Codes.v', 'gen/Currency.v', 'theories/Spec/Faim.v'],
-        'streams': ['l1-validators'],
+        'streams': ['l1-validators', 'l2-tags'],
         'trusted_base': ['hand model of validators.go shapes (Model/Validators.v) tied by stream l1-validators',
                          'regexp/syntax reading of the three negated character classes (translator/classes.go)',
                          'Spec/Faim.v: FAIM character set, published code lists, date and identifier shapes (my reading of the documentation)',
@@ -146,7 +146,7 @@ PROPS = {
     },
     'C19': {
         'props': ['theories/Props/C19.v'], 'deps': VERIFY_DEPS + ['theories/Model/Codec.v', 'theories/Model/Converters.v'],
-        'streams': ['l3-validate', 'l3-write'],
+        'streams': ['l3-validate', 'l3-write', 'l5-props'],
         'trusted_base': GOV_TB,
         'assumptions': COMMON_ASSUME,
     },
